@@ -121,7 +121,17 @@ TEAMS = [1, 2, 3, 5, 8, 16]
 
 
 # ------------------------------------------------------------------------------------------------ generation
+# thorough tier: every 40-th case also runs in a worker whose extensions are ASan/UBSan-instrumented (vlib/sanitize.py)
+ASAN_EVERY = {"quick": 0, "thorough": 40}
+GROUPS = {"thorough": [dict(name="asan", flavour="asan", workers=2)]}
+
+
 def gen_cases(tier, seed):
+    from vlib.gen import common as _common
+    return _common.with_asan_slice(_gen_cases(tier, seed), ASAN_EVERY[tier])
+
+
+def _gen_cases(tier, seed):
     ns = NS[tier]
     nk = len(KINDS)
     n = NCASES[tier]
